@@ -134,6 +134,7 @@ class WriteFile(_Reject):
     props = ("C15",)
     pure = ("str", "isinstance")
     noraise = ("append",)  # list.append / ArchiveFileList.append do not raise
+    opaque = ("py7zr:SevenZipFile._sanitize_archive_arcname",)  # its own contract: contracts/paths.py (C16)
 
     def setup(self, c):
         return {"self_": c.opq("self"), "file": c.opq("file"), "arcname": c.opq("arcname")}
